@@ -74,6 +74,18 @@ CHECKS.update({
              'and FlamaException for an unset domain.'),
 })
 
+CHECKS.update({
+    'C20': dict(technique='TLA+ equality contract SpecEq and single-point edits (FMEq.tla); TLC generator FMEqGen enumerates every model with '
+                          'each order-permutation strategy and every edit (lemma L11 model-checked); pairs rebuilt independently through the '
+                          'constructors; recorded Compare events judged by trace validation',
+        design_ref='DESIGN.md section 8 (C20)',
+        text='For every model up to N features: an independently rebuilt copy with children / relations / constraints reversed or rotated must '
+             'compare equal, and every single-point edit (rename, cardinality change, child split out, relation re-owned, operator or operand '
+             'change) unequal; ==, swapped ==, !=, x==x and hash agreement are logged for the models and for every pair of features, relations '
+             'and constraints and judged by TLC against SpecEq / RelEq / tree identity. Several namings, because sorting by name is where order '
+             'dependence hides.'),
+})
+
 REASON_TODO = 'check not built yet (build in progress; see DESIGN.md section 12)'
 
 
